@@ -142,6 +142,33 @@ impl<R: Read> PgnRawParser<R> {
         Ok(())
     }
 
+    /// Skip the rest of the line; the input may also end here (last game without trailing newline).
+    fn skip_to_next_line_or_end(&mut self) -> Result<(), PgnRawParserError> {
+        match self.skip_to_next_line() {
+            Ok(()) | Err(ReadingFromClosedRead) => Ok(()),
+            Err(error) => Err(error),
+        }
+    }
+
+    /// Read a movetext token: it ends before the next space or newline, or at the end of the input.
+    fn read_token(&mut self) -> Result<String, PgnRawParserError> {
+        let mut result = String::new();
+
+        loop {
+            match self.peek_byte() {
+                Ok(b' ' | b'\n') => break,
+                Ok(byte) => {
+                    result.push(byte as char);
+                    self.skip_byte()?;
+                }
+                Err(ReadingFromClosedRead) if !result.is_empty() => break,
+                Err(error) => return Err(error),
+            }
+        }
+
+        Ok(result)
+    }
+
     fn read_until(&mut self, byte: u8) -> Result<String, PgnRawParserError> {
         let mut result = String::new();
         let mut cur_byte = self.peek_byte()?;
@@ -198,7 +225,7 @@ impl<R: Read> PgnRawParser<R> {
             result.push(mv);
         }
 
-        self.skip_to_next_line()?;
+        self.skip_to_next_line_or_end()?;
 
         Ok(result)
     }
@@ -206,21 +233,16 @@ impl<R: Read> PgnRawParser<R> {
     fn read_move(&mut self) -> Result<Option<PgnRawAnnotatedMove>, PgnRawParserError> {
         self.skip_blank_lines_and_spaces()?;
 
-        let token = self.read_until(b' ')?;
+        let token = self.read_token()?;
 
-        let mut chars = token.chars();
-        if chars.next() == Some('*') {
-            return Ok(None);
-        }
-
-        if let Some('-' | '/') = chars.next() {
-            self.skip_to_next_line()?;
+        // the game termination marker ends the movetext; castling (O-O) and the like are moves
+        if matches!(token.as_str(), "*" | "1-0" | "0-1" | "1/2-1/2") {
             return Ok(None);
         }
 
         let mv = if token.contains('.') {
             self.skip_spaces()?;
-            self.read_until(b' ')?
+            self.read_token()?
         } else {
             token
         };
